@@ -102,7 +102,7 @@ theorem schema_semantics_fuel_independent (d : Decl) (hd : d ∈ schema.elems.al
 /-! ### The property at full strength
 
 `C06_full` is the statement of the property with the documented `Exceptions` only.  It does **not**
-hold on the current tree: the rows of `KnownFindings` (8 at /repo d71800a) (= known-findings/C06.txt, each reproduced
+hold on the current tree: the rows of `KnownFindings` (1 after the manifest repair) (= known-findings/C06.txt, each reproduced
 on the real code by harness/c06.py on every run) are counter-examples.  The theorems proved below
 are the same statements with the additional disjunct `∨ inKnownFindings …`, i.e. C06 for every row
 outside that explicit, decidable list; any *other* differing row makes them fail to check. -/
